@@ -91,8 +91,20 @@ func (drap *draPlugin) restoreAllClaims() {
 		log.InfraLogger.Errorf("Failed to list resource claims for state reconciliation: %v", err)
 		return
 	}
+	// The manager's set of allocated devices has no reference counts: restoring a claim that lost its assumed
+	// allocation removes its devices from the set, restoring a claim that regains its informer allocation adds them.
+	// A device that the last session took from a releasing pod's claim and assumed for a pipelined pod's claim is
+	// in both groups, so the removals have to come first - otherwise the device ends up free while the releasing
+	// pod still holds it.
 	for _, claim := range claims {
-		drap.manager.ResourceClaims().AssumedClaimRestore(claim.Namespace, claim.Name)
+		if claim.Status.Allocation != nil {
+			drap.manager.ResourceClaims().AssumedClaimRestore(claim.Namespace, claim.Name)
+		}
+	}
+	for _, claim := range claims {
+		if claim.Status.Allocation == nil {
+			drap.manager.ResourceClaims().AssumedClaimRestore(claim.Namespace, claim.Name)
+		}
 	}
 	log.InfraLogger.V(4).Infof("Restored %d resource claims to informer state", len(claims))
 }
